@@ -412,7 +412,7 @@ theorem run_hits_mono (i : Nat) : ∀ (f start : Nat) (end_ : Option Nat) (items
       | ev e =>
         by_cases hS : isStart e = true
         · rcases run_start_cases hS h with ⟨mts1, p, hsc, hp, rfl⟩ |
-            ⟨mts1, idx, t, inner, tail, rest', mts3, innerOut, mts4, out, p, hsc, ht, hb, hst, h3, h4, h5, rfl⟩
+            ⟨mts1, idx, t, inner, tail, rest', mts3, innerOut, mts4, out, p, hsc, ht, hst, h3, h4, h5, rfl⟩
           · have hl1 := scan_length e start end_ 0 mts; rw [hsc] at hl1
             have := ih _ _ _ _ _ (by simp only at hl1; omega) hp
             rw [hitsAt_scan_none i e start end_ mts mts1 hsc] at this
@@ -523,7 +523,7 @@ theorem run_once (i : Nat) : ∀ (f s : Nat) (en en' : Option Nat) (items : List
       | ev e =>
         by_cases hS : isStart e = true
         · rcases run_start_cases hS h with ⟨a1, p, hsc, hp, rfl⟩ |
-            ⟨a1, idx, t, inner, tail, rest', a3, innerOut, a4, out, p, hsc, ht, hbuf, hst, h3, h4, h5, rfl⟩
+            ⟨a1, idx, t, inner, tail, rest', a3, innerOut, a4, out, p, hsc, ht, hst, h3, h4, h5, rfl⟩
           · -- nothing fires on the left
             have hl1 := scan_length e s en 0 a; rw [hsc] at hl1; simp only at hl1
             have hh1 := hitsAt_scan_none i e s en a a1 hsc
@@ -631,8 +631,7 @@ theorem run_once (i : Nat) : ∀ (f s : Nat) (en en' : Option Nat) (items : List
                 · rw [hitsAt_updRange] at h2; exact h2
                 · cases h1
               refine ⟨c6, true, ?_, hrel6, Or.inr ⟨rfl, rfl, by simp only; omega⟩⟩
-              have hbuf' : t'.buffered = true := by rw [ht'eq]; exact hbuf
-              simp only [run, hS, ↓reduceIte, hsc', ht', hbuf', Bool.not_true, Bool.false_eq_true, hst, hr3, hbody,
+              simp only [run, hS, ↓reduceIte, hsc', ht', hst, hr3, hbody,
                 hr4, hr6, Option.map_some]
             · -- another template fires: the same on both sides
               unfold Q at hq
@@ -692,7 +691,7 @@ theorem run_once (i : Nat) : ∀ (f s : Nat) (en en' : Option Nat) (items : List
                 h5 (by rw [hitsAt_updRange]; exact hbud6)
               rw [hitsAt_updRange] at hd6
               refine ⟨c6, b6, ?_, hrel6, ?_⟩
-              · simp only [run, hS, ↓reduceIte, hsc', ht', hbuf, Bool.not_true, Bool.false_eq_true, hst, hr3,
+              · simp only [run, hS, ↓reduceIte, hsc', ht', hst, hr3,
                   hr4, hr6, Option.map_some]
               · simp only
                 rcases hd3 with ⟨h1, h2⟩ | ⟨h0, h1, h2⟩ <;> rcases hd4 with ⟨g1, g2⟩ | ⟨g0, g1, g2⟩ <;>
